@@ -54,6 +54,10 @@ namespace smt
     SMT_EXPORT bool sat_core::new_clause(std::vector<lit> lits) noexcept
     {
         assert(root_level());
+#ifdef ORATIO_VERIF
+        if (verif_hook)
+            verif_hook(4, lits);
+#endif
         // we check if the clause is already satisfied and filter out false/duplicate literals..
         std::sort(lits.begin(), lits.end(), [](const auto &l0, const auto &l1)
                   { return variable(l0) < variable(l1); });
@@ -425,6 +429,10 @@ namespace smt
 
                         if (root_level())
                         {
+#ifdef ORATIO_VERIF
+                            if (verif_hook)
+                                verif_hook(3, th->cnfl);
+#endif
                             th->cnfl.clear();
                             return false;
                         }
@@ -444,6 +452,10 @@ namespace smt
             {
                 if (root_level())
                 {
+#ifdef ORATIO_VERIF
+                    if (verif_hook)
+                        verif_hook(3, th->cnfl);
+#endif
                     th->cnfl.clear();
                     return false;
                 }
@@ -472,6 +484,9 @@ namespace smt
 
         // we reverse the no-good and store it..
         std::reverse(no_good.begin(), no_good.end());
+#ifdef ORATIO_VERIF
+        verif_kind = 1;
+#endif
         record(std::move(no_good));
 
         return propagate();
@@ -544,6 +559,11 @@ namespace smt
 
     void sat_core::record(std::vector<lit> lits) noexcept
     {
+#ifdef ORATIO_VERIF
+        if (verif_hook)
+            verif_hook(verif_kind, lits);
+        verif_kind = 0;
+#endif
         assert(value(lits[0]) == Undefined);
         assert(std::count_if(lits.cbegin(), lits.cend(), [this](auto &p)
                              { return value(p) == True; }) == 0);
